@@ -287,3 +287,65 @@ Lemma cancel_leaves_no_placement W q t :
 Proof.
   intros H. destruct (cancel_calls_accepted W q t) as (q' & E & _ & C). exists q'. split; [exact E|lia].
 Qed.
+
+(* ------------------------------------------------------------------ one decision of the policy *)
+Arguments task_unschedule : simpl never.
+
+Lemma task_unschedule_ok d time :
+  t_state d = TS_SCHEDULED ->
+  exists d', task_unschedule d time = Ok (d', tt) /\ t_state d' = t_pre_scheduling_state d.
+Proof.
+  intros H. unfold task_unschedule. rewrite H. cbn. eexists. split; [reflexivity|]. reflexivity.
+Qed.
+
+(* a decision for a task that is COMPLETED or CANCELLED changes nothing *)
+Lemma decision_for_final_task q drop t d x :
+  s_tasks (q_sim q) t = Some x -> (t_state (t_dyn x) = TS_COMPLETED \/ t_state (t_dyn x) = TS_CANCELLED) -> d <> DCancel ->
+  decision_outcome q drop t d = DoNothing.
+Proof.
+  intros Hx Hs Hd. unfold decision_outcome. rewrite Hx.
+  destruct d as [pt rt| |]; [| |congruence]; destruct Hs as [Hs|Hs]; rewrite Hs; reflexivity.
+Qed.
+
+(* a plan is retracted only for a task that has not started and has a placement event pending; its time is reported *)
+Lemma retraction_spec q drop t d tm :
+  decision_outcome q drop t d = DoUnschedule tm ->
+  d = DUnplaced /\ drop = false /\
+  exists x p, s_tasks (q_sim q) t = Some x /\ cancel_outcome q t = Some p /\ pe_time p = tm /\
+              (task_state_ltb (t_state (t_dyn x)) TS_SCHEDULED = true \/ t_state (t_dyn x) = TS_SCHEDULED).
+Proof.
+  unfold decision_outcome. destruct (s_tasks (q_sim q) t) as [x|] eqn:Hx; [|discriminate].
+  destruct d as [pt rt| |]; [| |discriminate].
+  - destruct (task_state_ltb _ _); [discriminate|]. destruct (task_state_eqb (t_state (t_dyn x)) TS_SCHEDULED).
+    + destruct (cancel_outcome q t); discriminate.
+    + destruct (_ || _); discriminate.
+  - destruct (task_state_ltb (t_state (t_dyn x)) TS_SCHEDULED) eqn:L1; cbn [orb].
+    + destruct drop; [discriminate|]. destruct (cancel_outcome q t) as [p|] eqn:C; [|discriminate].
+      intros H; inversion H; subst. repeat split; auto. exists x, p. auto.
+    + destruct (task_state_eqb (t_state (t_dyn x)) TS_SCHEDULED) eqn:L2.
+      * destruct drop; [discriminate|]. destruct (cancel_outcome q t) as [p|] eqn:C; [|discriminate].
+        intros H; inversion H; subst. repeat split; auto. exists x, p. repeat split; auto. right. apply ts_eqb_true. exact L2.
+      * destruct (_ || _); discriminate.
+Qed.
+
+(* the retraction path: the two calls are accepted by the machine with the queue (inside the SCHEDULER_FINISHED handler), the
+   task falls back from SCHEDULED to the state it was scheduled from, and one placement event of it leaves the queue *)
+Lemma unschedule_calls_accepted W q t x :
+  s_tasks (q_sim q) t = Some x -> t_state (t_dyn x) = TS_SCHEDULED ->
+  cur_is (q_sim q) SCHEDULER_FINISHED None = true ->
+  cancel_outcome q t <> None ->
+  exists q' x', sq_exec W q (unschedule_calls q t) = Some q' /\ s_tasks (q_sim q') t = Some x' /\
+    t_state (t_dyn x') = t_pre_scheduling_state (t_dyn x) /\
+    count_placements t (q_pending q') = (count_placements t (q_pending q) - 1)%nat /\
+    s_clock (q_sim q') = s_clock (q_sim q).
+Proof.
+  intros Hx Hs Hc Hp. unfold unschedule_calls. destruct (cancel_outcome q t) as [p|] eqn:C; [|congruence].
+  unfold cancel_outcome in C. destruct (find_in _ _ _ C) as [Hin Hpl].
+  destruct (task_unschedule_ok (t_dyn x) (s_clock (q_sim q)) Hs) as (d' & Hu & Hst).
+  cbn [sq_exec]. unfold sq_step at 1. rewrite (mem_pev_in _ _ Hin).
+  unfold sq_step at 1. cbn [q_sim q_pending q_popped q_handling].
+  unfold sim_step. rewrite Hx, Hc, Z.eqb_refl. cbn [andb]. rewrite Hu.
+  eexists. eexists. split; [reflexivity|]. cbn [q_sim with_tasks s_tasks q_pending s_clock].
+  rewrite upd_same. split; [reflexivity|]. cbn [t_dyn set_dyn]. split; [exact Hst|].
+  split; [apply count_remove_one; assumption|reflexivity].
+Qed.
